@@ -314,5 +314,6 @@ Match(x, o) ==
        /\ o.k = "ctx" /\ Len(o.ents) = Cardinality({x.ents[i].n : i \in 1..Len(x.ents)})
        /\ \A i \in 1..Len(x.ents) : \E j \in 1..Len(o.ents) : o.ents[j].n = x.ents[i].n /\ Match(Get(x, x.ents[i].n), o.ents[j].v)
   ELSE IF x.k = "fn" THEN o.k = "fn"
+  ELSE IF x.k \in {"date", "time", "dt", "dtd", "ymd"} THEN o = x      \* temporal values: field by field
   ELSE FALSE
 =============================================================================
